@@ -172,7 +172,8 @@ def mk_cell(ctx, tmpl, tag, idx=None):
         cell["execution_count"] = ctx.ec(tag)
         cell["outputs"] = [mk_output(ctx, k, tag) for k in tmpl.get("outputs", [])]
     if t == "markdown" and tmpl.get("att"):
-        cell["attachments"] = {"pic.png": {"image/png": B64[0]}}
+        cell["attachments"] = ({"pic.png": {"image/png": B64[0]}} if tmpl["att"] is True
+                               else {"pic.png": {"image/png": B64[1]}, "extra.png": {"image/png": B64[0]}})
     if ctx.with_ids:
         cell["id"] = tmpl.get("id") or (IDS[idx] if idx is not None else NEW_IDS["x"][0])
     cell["_src"] = tmpl.get("src")
@@ -210,6 +211,9 @@ NEW_TEMPLATES = {
     "N1s": dict(type="code", text=NEW_SRC["N1s"], outputs=["stream"], md=1),
     "N2": dict(type="code", text=NEW_SRC["N2"], outputs=[], md=0),
     "Nm": dict(type="markdown", text=NEW_SRC["Nm"], md=0),
+    # similar markdown cells whose attachments differ (same name, other content / other name)
+    "NmA": dict(type="markdown", text=NEW_SRC["Nm"], md=0, att=True),
+    "NmB": dict(type="markdown", text=NEW_SRC["Nm"] + "More.\n", md=1, att="other"),
 }
 
 
